@@ -59,9 +59,9 @@ def audit(pid, state):
         script = os.path.join(LEAN, ".lake", "audit_%s.lean" % mod.replace(".", "_"))
         os.makedirs(os.path.dirname(script), exist_ok=True)
         with open(script, "w") as f:
-            f.write("import %s\nopen Lean Elab Command in\nrun_cmd do\n  let env ← getEnv\n  let pre := `%s\n"
+            f.write("import Lean.Elab.Command\nimport Lean.Util.CollectAxioms\nimport %s\nopen Lean Elab Command in\nrun_cmd do\n  let env ← getEnv\n  let pre := `%s\n"
                     "  let mut names : Array Name := #[]\n"
-                    "  for (n, ci) in env.constants.map₂.toList do\n"
+                    "  for (n, ci) in env.constants.toList do\n"
                     "    if pre.isPrefixOf n && !n.isInternal && (match ci with | .thmInfo _ => true | _ => false) then names := names.push n\n"
                     "  for n in names.qsort (fun a b => a.toString < b.toString) do\n"
                     "    let ax ← liftCoreM (collectAxioms n)\n"
@@ -120,7 +120,27 @@ def run_harness(pid, tier, seed, state):
     cmd = [os.path.join(BIN, "harness"), "run", "--prop=" + pid, "--tier=" + tier, "--seed=%d" % seed, "--out=" + out]
     p = subprocess.run(cmd, cwd=V, capture_output=True, text=True)
     res = json.load(open(out)) if os.path.exists(out) else None
-    return res, p.returncode, p.stdout + p.stderr
+    text = p.stdout + p.stderr
+    if res is not None and cfg.get("race"):
+        # the same workload under the race detector
+        import prep
+        rb = os.path.join(BIN, "harness-race")
+        rc, o = prep.sh(["go", "build", "-race", "-tags", "verif", "-o", rb, "."], cwd=os.path.join(V, "harness"), env=prep.GOENV)
+        if rc != 0:
+            text += "\nrace build failed:\n" + o[-2000:]
+        else:
+            out2 = os.path.join(BIN, "run_%s_race.json" % pid)
+            if os.path.exists(out2):
+                os.remove(out2)
+            p2 = subprocess.run(cmd[:-1] + ["--out=" + out2, "--bin=" + rb, "--workers=4", "--gomaxprocs=8"], cwd=V, capture_output=True, text=True)
+            text += p2.stdout + p2.stderr
+            if os.path.exists(out2):
+                r2 = json.load(open(out2))
+                res["violations"] = (res.get("violations") or []) + (r2.get("violations") or [])
+                res["known"] = (res.get("known") or []) + (r2.get("known") or [])
+                res["stats"]["counters"]["race_run_evaluations"] = r2["stats"]["evaluations"]
+                res["stats"]["counters"]["race_run_crashes"] = r2.get("crashes", 0)
+    return res, p.returncode, text
 
 
 def write_replay(pid, name, payload):
